@@ -504,6 +504,12 @@ def make_param(ctx, name, ty):
                 ("[(str, (str, str))]", ("pairlist", [(("str", name + "k0"), ("strtuple2", name + "v0"))])),
                 ("[(str, str), (str, int)]", ("pairlist", [(("str", name + "k0"), ("str", name + "v0")),
                                                            (("str", name + "k1"), ("int", name + "n1"))]))]
+    if ty == "querydict":
+        # a mapping argument with literal keys and values of any content
+        return [("{}", ("dictarg", [])),
+                ("{'a': str}", ("dictarg", [("a", ("str", name + "va"))])),
+                ("{'a&b': str, 'c': int}", ("dictarg", [("a&b", ("str", name + "va")), ("c", ("int", name + "nc"))])),
+                ("{'k': [str, str]}", ("dictarg", [("k", ("strlist", name + "vk"))]))]
     if ty == "strtuple":
         return [("()", ("vargs", [])), ("(str,)", ("vargs", [("str", name + "0")])),
                 ("(str, str)", ("vargs", [("str", name + "a"), ("str", name + "b")]))]
@@ -545,6 +551,8 @@ def instantiate_param(ex, ctx, desc):
         return ("pydata-ref", name)
     if kind == "vargs":
         return VTuple([instantiate_param(ex, ctx, d) for d in name])
+    if kind == "dictarg":
+        return V.VDict({k: instantiate_param(ex, ctx, d) for k, d in name}, fresh=False)
     if kind == "pairlist":
         return VList([VTuple([instantiate_param(ex, ctx, k), instantiate_param(ex, ctx, v)]) for k, v in name], fresh=False)
     if kind == "strlist":
